@@ -84,6 +84,14 @@ OPNAME = {"add": "add", "addf": "add-file", "del": "delete", "has": "contains", 
           "read": "open+read of a present name"}
 
 
+def split_forms(t):
+    """(dir, name) spellings of the path string t: split at the last separator, directory with and without it."""
+    p = max(t.rfind(b"/"), t.rfind(b"\\"))
+    if p < 0:
+        return []
+    return [(t[:p + 1], t[p + 1:]), (t[:p], t[p + 1:])]
+
+
 def op_str(op):
     nm = NAMES[op[1]].decode()
     if op[0] == "add":
@@ -147,10 +155,10 @@ class Vfs:
     def hasf(self, name):
         return self.lib.mj_containsFileVFS(self.buf, self.root, name)
 
-    def read(self, name):
+    def read(self, name, dir_=None):
         """open + read + close through the resource API; None if the resource cannot be opened, ('ERR', k) on read error."""
         lib = self.lib
-        r = lib.mju_openResource(None, name, self.buf, self.err, 256)
+        r = lib.mju_openResource(dir_, name, self.buf, self.err, 256)
         if not r:
             return None
         p = ctypes.c_void_p()
@@ -165,7 +173,9 @@ class Vfs:
         return out
 
     def observe(self):
-        return tuple((self.has(t), self.hasf(t), self.read(t)) for t in NAMES)
+        # 4th component: the same name opened as (directory, base name) -- with and without the trailing separator, the
+        # form mju_getResourceDir produces -- must denote the same file as the single string
+        return tuple((self.has(t), self.hasf(t), self.read(t), tuple(self.read(nm, d) for d, nm in split_forms(t))) for t in NAMES)
 
     def apply(self, op):
         k = op[0]
@@ -332,6 +342,14 @@ class Judge:
         h = hist + (op,)
         rep = {"history": [op_str(o) for o in h], "ops": [list(o) for o in h]}
         expand = True
+        for i in range(NN):
+            for (d_, nm_), got in zip(split_forms(NAMES[i]), obs[i][3]):
+                part.add("split_form_reads")
+                if got != obs[i][2]:
+                    _viol(part, "vfs: open(dir, name) resolves to a different file than open(dir + name)",
+                          "history %s: open+read(dir=%r, name=%r) gave %r, open+read(%r) gave %r"
+                          % (hist_str(h), d_.decode(), nm_.decode(), got, NAMES[i].decode(), obs[i][2]), rep)
+                    expand = False
         kind = op[0]
         show = lambda x: x.decode() if isinstance(x, bytes) else x
         if kind == "read" and exp is None:
